@@ -11,11 +11,11 @@ pub struct TermInfo {
   pub index: i64,
   /// precise instant as a Julian date on the library's civil (UTC+8) time line
   pub jd: f64,
-  /// civil day (JDN) containing the instant
+  /// civil day (JDN) the library reports for the instant (instant rounded to the second, then its day)
   pub day: i64,
   /// seconds since 0001-01-01 00:00:00, rounded to the nearest second as get_solar_time does
   pub sec: i64,
-  /// the instant lies within 0.6 s of a civil midnight: its reported day is ambiguous (DESIGN 3.4)
+  /// the second-rounding itself is ambiguous right before midnight (within 2 ms of hh:59:59.5)
   pub ambiguous_day: bool,
   /// rounding to the second is within 2 ms of a half second
   pub ambiguous_sec: bool,
@@ -31,13 +31,17 @@ pub struct Terms {
 pub fn term_info(year: i64, index: i64) -> TermInfo {
   let t = SolarTerm::from_index(year as isize, index as isize);
   let jd = t.get_julian_day().get_day();
-  let day = (jd + 0.5).floor() as i64;
+  // "The term's day" is the day the library reports for the instant: the instant rounded to the nearest
+  // second (as JulianDay::get_solar_time does), then its civil day. Only an instant within 2 ms of a half
+  // second next to midnight is still ambiguous.
   let secs = (jd + 0.5 - JDN0 as f64) * 86400.0;
-  let frac_day = (jd + 0.5) - (jd + 0.5).floor();
-  let s_in_day = frac_day * 86400.0;
-  let ambiguous_day = s_in_day < 0.6 || s_in_day > 86400.0 - 0.6;
   let fs = secs - secs.floor();
-  TermInfo { year, index, jd, day, sec: secs.round() as i64, ambiguous_day, ambiguous_sec: (fs - 0.5).abs() < 0.002, cursory: (t.get_cursory_julian_day() + 2451545.0 + 0.5).floor() as i64 }
+  let ambiguous_sec = (fs - 0.5).abs() < 0.002;
+  let sec = secs.round() as i64;
+  let day = JDN0 + sec.div_euclid(86400);
+  let s_in_day = secs - (secs / 86400.0).floor() * 86400.0;
+  let ambiguous_day = ambiguous_sec && (s_in_day > 86400.0 - 0.6);
+  TermInfo { year, index, jd, day, sec, ambiguous_day, ambiguous_sec, cursory: (t.get_cursory_julian_day() + 2451545.0 + 0.5).floor() as i64 }
 }
 
 impl Terms {
